@@ -21,6 +21,7 @@ type EvalCtx struct {
 	atReturn   bool
 	inOld      bool
 	noLocals   bool
+	shadow     map[string]bool // bound variables / results shadowing parameter names
 }
 
 type evalError struct{ msg string }
@@ -57,6 +58,13 @@ func (x *Exec) evalBool(ctx *EvalCtx, c *Clause) (t *Term) {
 
 func (c *EvalCtx) withVars(extra map[string]TV) *EvalCtx {
 	n := *c
+	n.shadow = map[string]bool{}
+	for k := range c.shadow {
+		n.shadow[k] = true
+	}
+	for k := range extra {
+		n.shadow[k] = true
+	}
 	n.vars = map[string]TV{}
 	for k, v := range c.vars {
 		n.vars[k] = v
@@ -137,10 +145,19 @@ func (c *EvalCtx) eval(e Expr) TV {
 			t := &Term{Kind: KApp, Op: name, Sort: s}
 			extra[bv.Name] = c.typed(t, ty)
 		}
-		body := c.withVars(extra).eval(v.Body)
+		qc := c.withVars(extra)
+		body := qc.eval(v.Body)
 		bt := c.termOf(body)
+		var pats [][]*Term
+		for _, pat := range v.Pats {
+			var pt []*Term
+			for _, pe := range pat {
+				pt = append(pt, qc.termOf(qc.eval(pe)))
+			}
+			pats = append(pats, pt)
+		}
 		if v.Forall {
-			return tvTerm(Forall(bs, bt))
+			return tvTerm(Forall(bs, bt, pats...))
 		}
 		return tvTerm(Exists(bs, bt))
 	}
@@ -149,6 +166,16 @@ func (c *EvalCtx) eval(e Expr) TV {
 }
 
 func (c *EvalCtx) ident(name string) TV {
+	// parameters of the function under verification are mutable cells: outside old(), their current value counts
+	if c.x != nil && !c.noLocals && !c.inOld && c.x.fn != nil {
+		if _, isParam := c.x.params[name]; isParam {
+			if _, shadow := c.shadow[name]; !shadow {
+				if tv, ok := c.localVarSafe(name); ok && tv.V != nil {
+					return tv
+				}
+			}
+		}
+	}
 	if tv, ok := c.vars[name]; ok {
 		if c.inOld {
 			// parameters: entry value
@@ -663,6 +690,25 @@ func (c *EvalCtx) call(v *ECall) TV {
 			return tvTerm(set)
 		}
 		return tvTerm(Select(set, c.termOf(c.eval(v.Args[0]))))
+	case "ranged":
+		// the slice ranged over by the rangeindex loop at the current loop header
+		if c.loopHeader == nil || len(c.loopHeader.Instrs) < 4 {
+			c.fail("ranged() outside a slice range loop")
+		}
+		cmp, ok := c.loopHeader.Instrs[3].(*ssa.BinOp)
+		if !ok {
+			c.fail("ranged() outside a slice range loop")
+		}
+		call, ok := cmp.Y.(*ssa.Call)
+		if !ok || len(call.Call.Args) != 1 {
+			c.fail("ranged(): loop bound is not len(slice)")
+		}
+		sv := call.Call.Args[0]
+		val, ok := c.state().regs[sv]
+		if !ok {
+			c.fail("ranged(): slice value not available")
+		}
+		return TV{V: val, T: sv.Type(), S: c.prog.sortOf(sv.Type())}
 	case "pos":
 		it := c.rangeIter()
 		if it == nil {
@@ -708,6 +754,22 @@ func (c *EvalCtx) call(v *ECall) TV {
 	case "tag":
 		need(1)
 		return tvTerm(itag(c.termOf(c.eval(v.Args[0]))))
+	case "ref":
+		need(1)
+		t := c.termOf(c.eval(v.Args[0]))
+		if t.Sort == SIface {
+			return tvTerm(ival(t))
+		}
+		return tvTerm(t)
+	case "emptyset":
+		// emptyset("T"): the empty set of T
+		need(1)
+		ts := v.Args[0].(*EStr)
+		ks, _, err := c.prog.sortFromText(ts.V, c.pkg)
+		if err != nil {
+			c.fail("%v", err)
+		}
+		return tvTerm(c.prog.zeroOfSort(ArraySort(ks, SBool)))
 	}
 	// spec function
 	if f, ok := c.prog.U.Funs[v.Fun]; ok {
